@@ -332,7 +332,7 @@ theorem run_from_out {g : Cfg} (ok : g.OK) (c : Conn) (n f N : Nat) (hsegs : c.e
        (runTask (f + 1) c n none = (c'', "STALL") ∧ Parked g O1 O2 c''))) ∧
       ∀ s, s ∈ c'.env.tr.events → s ∈ c''.env.tr.events := by
   obtain ⟨hsame, hph, hsc, hstop, hmx, hsg, hwk⟩ := prePoll_same c n hsegs
-  have hpoll := hh.poll (F := 100000) hN
+  have hpoll := hh.pollT hN
   have hans0 : ans (prePoll c n none).env.tr = ans c.env.tr := by unfold ans; rw [hsame.rd, hsame.wr]
   have hsg' : c'.env.segs = [] := hl.segs.trans hsg
   have hlen' : 4 * c'.env.tr.input.length + 17 ≤ 100000 := by
@@ -402,7 +402,7 @@ theorem run_via {g : Cfg} (ok : g.OK) (S : Conn → Prop)
     obtain ⟨hsame, hph, hsc, hstop, hmx, hsg, hwk⟩ := prePoll_same c n hsegs
     have hans0 : ans (prePoll c n none).env.tr = ans c.env.tr := by unfold ans; rw [hsame.rd, hsame.wr]
     rcases hpoll _ (hcong _ _ hS hph hsc hstop hmx hsame) with ⟨c', hh, hl, hS', hw, ha⟩ | hres
-    · have hpoll' := hh.poll (F := 100000) (by rw [hsame.input]; exact hlen)
+    · have hpoll' := hh.pollT (by rw [hsame.input]; exact hlen)
       have hsg' : c'.env.segs = [] := hl.segs.trans hsg
       have hlen' : 6 * c'.env.tr.input.length + 20 ≤ 100000 := by
         have := hl.ts.inp
